@@ -1,6 +1,7 @@
 import Bandit.Blacklist
 import Bandit.Plugins.Shell
 import Bandit.Plugins.Misc
+import Bandit.Plugins.CryptoGen
 /-!
 # Assembling the test set (`BanditTestSet`)
 -/
@@ -10,6 +11,7 @@ open Plugins
 /-- All modelled plugin checks for given per-plugin settings. -/
 def pluginChecks (pc : PluginCfg) (fileName : Str) : List Check :=
   miscChecks pc fileName ++ shellChecks (ShellCfg.ofCfg (pc.get "shell_injection"))
+    ++ cryptoChecks genCryptoTables pc
 
 /-- The test set for a filter `keep` on test IDs: plugins whose ID passes, plus the blacklist
 wrapper over the per-ID filtered tables (absent when nothing survives). -/
